@@ -23,7 +23,7 @@ Ltac dobind_as H v E :=
   | obind ?e _ = _ => destruct e as [v|?|?] eqn:E; cbn [obind] in H; try discriminate H
   end.
 
-Definition skey := (addr * addr)%type.
+Notation skey := (addr * addr)%type (only parsing).
 
 Lemma skey_dec (k k' : skey) : {k = k'} + {k <> k'}.
 Proof.
@@ -1283,7 +1283,6 @@ Proof.
   intros Hb Hv Hns Hn0. constructor; cbn [s_streams s_valfee]; auto.
   - constructor.
   - intros k st H. discriminate H.
-  - intros d. rewrite Hb. reflexivity.
   - intros r sn st H. discriminate H.
 Qed.
 
@@ -1353,3 +1352,168 @@ Proof.
   - intros k st0 H. discriminate H.
   - eapply cancel_succeeds; eauto.
 Qed.
+
+(* ================================================================== *)
+(* Concrete reachable states (used by the Examples and the refutations)  *)
+(* ================================================================== *)
+
+Ltac zdec := first [ reflexivity | (vm_compute; reflexivity) | (vm_compute; let X := fresh "X" in intro X; discriminate X) ].
+
+(* account 1 holds 10^22 of denom 0; validator fee 1 % *)
+Definition ex_bank : bank :=
+  {| bal := [((1, 0), 10000000000000000000000)]; supply := [(0, 10000000000000000000000)] |}.
+Definition ex_state0 : str_state := {| s_valfee := 10000000000000000; s_streams := [] |}.
+Definition ex_now : Z := 1700000000 * NS.
+
+Lemma ex_inv0 : str_inv ex_now ex_bank ex_state0.
+Proof.
+  apply str_inv_init; [intros d; reflexivity | split; zdec | zdec | zdec].
+Qed.
+
+(* sender 1 -> receiver 2, 100000 at 100 per second: runs 1000 s *)
+Definition ex_h_create : list (Z * str_msg) := [(ex_now, SCreate 1 2 0 100000 100)].
+
+Lemma ex_h_create_sorted : times_sorted ex_now ex_h_create.
+Proof. cbn [times_sorted ex_h_create]. repeat split; zdec. Qed.
+
+Definition ex_bs1 : bank * str_state := Eval vm_compute in str_run (ex_bank, ex_state0) ex_h_create.
+
+Lemma ex_inv1 : str_inv ex_now (fst ex_bs1) (snd ex_bs1).
+Proof.
+  pose proof (sustain_reachable _ _ _ _ ex_inv0 ex_h_create_sorted) as I.
+  vm_compute in I. vm_compute. exact I.
+Qed.
+
+(* C12, known limitation: a top-up whose new deposit-zero time is beyond year 9999
+   (or whose extension in seconds is not an int64) aborts with a panic *)
+Theorem topup_unrepresentable_refuted :
+  exists now b s sn r st amt,
+    str_inv now b s /\ aget (r, sn) (s_streams s) = Some st /\ 0 < st_deposit st /\
+    0 < amt /\ amt <= balance b sn (st_denom st) /\
+    sn <> r /\ sn <> STREAM_MACC /\ sn <> FEE_COLLECTOR /\ amt / st_rate st < two63 /\
+    str_exec now b s (STopUp sn r (st_denom st) amt) = Panic PANIC_MARSHAL.
+Proof.
+  exists ex_now, (fst ex_bs1), (snd ex_bs1), 1, 2.
+  eexists. exists 30000000000000.
+  split; [exact ex_inv1|]. split; [vm_compute; reflexivity|].
+  cbn [st_deposit st_denom st_rate].
+  repeat split; try zdec.
+Qed.
+
+Theorem topup_int64_refuted :
+  exists now b s sn r st amt,
+    str_inv now b s /\ aget (r, sn) (s_streams s) = Some st /\ 0 < st_deposit st /\
+    0 < amt /\ amt <= balance b sn (st_denom st) /\
+    sn <> r /\ sn <> STREAM_MACC /\ sn <> FEE_COLLECTOR /\
+    str_exec now b s (STopUp sn r (st_denom st) amt) = Panic PANIC_INT64.
+Proof.
+  exists ex_now, (fst ex_bs1), (snd ex_bs1), 1, 2.
+  eexists. exists 922337203685477580800.
+  split; [exact ex_inv1|]. split; [vm_compute; reflexivity|].
+  cbn [st_deposit st_denom st_rate].
+  repeat split; try zdec.
+Qed.
+
+(* ---------- why the side conditions of the step theorem are there ---------- *)
+
+(* (A) the sustain inequality alone is not inductive: updating the flow rate of an emptied
+   stream sets dzt = now while lot stays at the last claim *)
+Definition ex_h_empty_update : list (Z * str_msg) :=
+  [(ex_now, SCreate 1 2 0 6000 100); (ex_now + 2000 * NS, SClaim 1 2);
+   (ex_now + 3000 * NS, SUpdateFlow 1 2 50)].
+
+Theorem obs_update_flow_empty_stream :
+  times_sorted ex_now ex_h_empty_update /\
+  exists st, aget (2, 1) (s_streams (snd (str_run (ex_bank, ex_state0) ex_h_empty_update))) = Some st /\
+    st_deposit st = 0 /\ ~ (st_rate st * (st_dzt st - st_lot st) <= st_deposit st * NS).
+Proof.
+  split.
+  - cbn [times_sorted ex_h_empty_update]. repeat split; zdec.
+  - eexists. split; [vm_compute; reflexivity|]. cbn [st_deposit st_rate st_dzt st_lot].
+    split; [reflexivity|]. intros H. vm_compute in H. apply H. reflexivity.
+Qed.
+
+(* (B) a block time before 1970: CreateNewStream's "DepositZeroTime = Unix(0,0), set to past"
+   is then in the future, AddDeposit extends it instead of restarting from now *)
+Theorem obs_pre1970_blocktime :
+  exists now b' s' resp st,
+    time_storable now = true /\ now < 0 /\
+    str_exec now ex_bank ex_state0 (SCreate 1 2 0 6000 100) = Ok (b', s', resp) /\
+    aget (2, 1) (s_streams s') = Some st /\
+    st_dzt st <> now + (6000 / 100) * NS /\
+    ~ (st_rate st * (st_dzt st - st_lot st) <= st_deposit st * NS).
+Proof.
+  exists (-1000 * NS). do 4 eexists.
+  split; [zdec|]. split; [zdec|]. split; [vm_compute; reflexivity|].
+  split; [vm_compute; reflexivity|]. cbn [st_deposit st_rate st_dzt st_lot].
+  split; [zdec|]. intros H. vm_compute in H. apply H. reflexivity.
+Qed.
+
+(* (D) a create "signed" by the stream module account itself: escrow is not increased *)
+Theorem obs_module_account_sender :
+  exists b' s' resp,
+    str_exec ex_now (fst ex_bs1) (snd ex_bs1) (SCreate STREAM_MACC 3 0 6000 100) = Ok (b', s', resp) /\
+    ~ escrow_backed b' s'.
+Proof.
+  do 3 eexists. split; [vm_compute; reflexivity|].
+  intros H. specialize (H 0). vm_compute in H. discriminate H.
+Qed.
+
+(* (C) a flow rate that is not an int64 is stored as is by the (unbounded-Z) model *)
+Theorem obs_rate_not_int64 :
+  exists b' s' resp st,
+    str_exec ex_now ex_bank ex_state0 (SCreate 1 2 0 (60 * two63) two63) = Ok (b', s', resp) /\
+    aget (2, 1) (s_streams s') = Some st /\ ~ stream_ok ex_now st.
+Proof.
+  do 4 eexists. split; [vm_compute; reflexivity|]. split; [vm_compute; reflexivity|].
+  intros [[_ Hr] _ _ _ _ _]. vm_compute in Hr. discriminate Hr.
+Qed.
+
+(* ---------- a worked history ---------- *)
+
+Definition ex_t (secs : Z) : Z := ex_now + secs * NS.
+
+Definition ex_history : list (Z * str_msg) :=
+  [ (ex_t 0,    SCreate 1 2 0 100000 100);     (* 100000 at 100/s: zero time = +1000 s *)
+    (ex_t 10,   SClaim 1 2);                   (* 10 s: pays 1000 = 990 + 10 *)
+    (ex_t 20,   STopUp 1 2 0 50000);           (* zero time +500 s -> +1500 s *)
+    (ex_t 30,   SUpdateFlow 1 2 200);          (* settles 20 s x 100 = 2000; 147000 left at 200/s: +30+735 s *)
+    (ex_t 40,   SCancel 1 2) ].                (* settles 10 s x 200 = 2000; refunds 145000 *)
+
+Lemma ex_history_sorted : times_sorted ex_now ex_history.
+Proof. cbn [times_sorted ex_history]. repeat split; zdec. Qed.
+
+(* ================================================================== *)
+(* C10: escrow backing, projected out of the invariant                  *)
+(* ================================================================== *)
+
+Theorem escrow_backed_step now b s m b' s' resp :
+  str_inv now b s -> str_msg_wf m -> str_validate_basic m = Ok tt ->
+  str_exec now b s m = Ok (b', s', resp) -> escrow_backed b' s'.
+Proof. intros I W V H. exact (si_backed _ _ _ (sustain_step _ _ _ _ _ _ _ I W V H)). Qed.
+
+Theorem escrow_backed_reachable now0 b0 s0 h :
+  str_inv now0 b0 s0 -> times_sorted now0 h ->
+  escrow_backed (fst (str_run (b0, s0) h)) (snd (str_run (b0, s0) h)).
+Proof. intros I T. exact (si_backed _ _ _ (sustain_reachable _ _ _ _ I T)). Qed.
+
+Theorem escrow_backed_from_genesis now0 b0 vf h :
+  (forall d, balance b0 STREAM_MACC d = 0) -> 0 <= vf <= DEC_ONE ->
+  time_storable now0 = true -> 0 <= now0 -> times_sorted now0 h ->
+  let bs := str_run (b0, {| s_valfee := vf; s_streams := [] |}) h in
+  forall d, balance (fst bs) STREAM_MACC d = total_deposits (snd bs) d.
+Proof.
+  intros Hb Hv Hs Hn T bs.
+  exact (escrow_backed_reachable _ _ _ _ (str_inv_init now0 b0 vf Hb Hv Hs Hn) T).
+Qed.
+
+Lemma ex_history_prefix_sorted n : times_sorted ex_now (firstn n ex_history).
+Proof.
+  do 6 (destruct n as [|n]; [cbn [firstn ex_history times_sorted]; repeat split; zdec|]).
+  exact ex_history_sorted.
+Qed.
+
+Lemma ex_history_backed n d :
+  balance (fst (str_run (ex_bank, ex_state0) (firstn n ex_history))) STREAM_MACC d
+  = total_deposits (snd (str_run (ex_bank, ex_state0) (firstn n ex_history))) d.
+Proof. exact (escrow_backed_reachable _ _ _ _ ex_inv0 (ex_history_prefix_sorted n) d). Qed.
